@@ -13,7 +13,9 @@ pub assume_specification<T, A: std::alloc::Allocator> [Vec::<T, A>::reserve_exac
 pub assume_specification<T, A: std::alloc::Allocator> [Vec::<T, A>::set_len] (v: &mut Vec<T, A>, n: usize)
     requires n <= vec_cap(old(v))              // std's safety contract of set_len //@@clause:std.set_len/requires.le_capacity
     ensures final(v)@.len() == n, vec_cap(final(v)) == vec_cap(old(v)),
-        forall|i: int| 0 <= i < n && i < old(v)@.len() ==> final(v)@[i] == old(v)@[i];
+        forall|i: int| 0 <= i < n && i < old(v)@.len() ==> final(v)@[i] == old(v)@[i],
+        n <= old(v)@.len() ==> final(v)@ == old(v)@.subrange(0, n as int),                    // truncation
+        n >= old(v)@.len() ==> final(v)@.subrange(0, old(v)@.len() as int) == old(v)@;        // extension: old part kept, new part unspecified
 #[verifier::external_body]
 pub fn vec_with_capacity(n: usize) -> (v: Vec<u8>) ensures v@.len() == 0, vec_cap(&v) >= n { Vec::with_capacity(n) }
 
@@ -108,6 +110,7 @@ pub fn k_recv(Tracked(k): Tracked<&mut K>, fd: c_int, buf: &mut Vec<u8>, write_p
             &&& old(k).q[fd].len() > 0
             &&& final(k).q == old(k).q.insert(fd, old(k).q[fd].drop_first())
             &&& p.data.len() <= len ==> r == p.data.len() && final(buf)@.subrange(write_pos as int, write_pos + r) == p.data
+                    && final(buf)@.subrange(0, write_pos + r) == old(buf)@.subrange(0, write_pos as int) + p.data
             &&& p.data.len() > len ==> r == len    // truncated: rest of the packet lost
         },
         r == 0 ==> old(k).q[fd].len() == 0 && final(k).q == old(k).q,
@@ -186,4 +189,13 @@ pub proof fn lemma_flat_pos(q: Seq<Packet>)
     decreases q.len()
 {
     if q.len() > 0 { lemma_flat_first(q); }
+}
+pub proof fn lemma_followups_drop_first(q: Seq<Packet>)
+    requires followups_ok(q), q.len() > 0
+    ensures followups_ok(q.drop_first())
+{
+    assert forall|i: int| 0 <= i < q.drop_first().len() implies (#[trigger] q.drop_first()[i]).hdr is None && q.drop_first()[i].fds.len() == 0
+        && 0 < q.drop_first()[i].data.len() <= spec_frag(sys_sendbuf()) by {
+        assert(q.drop_first()[i] == q[i + 1]);
+    }
 }
